@@ -16,7 +16,7 @@ CLAIMED = {
  "C05": ("exploration", DST + "catalogue command histories with restarts; dump before == after",
          "Administrative histories (auto/explicit ids, by number/name, delete+re-create, users, permissions, tokens, groups) through the binary protocol with clean restarts; catalogue dump, messages and directory tree compared across each restart.", "binary protocol for every connection; in 30% of the runs half of the administrator's catalogue commands go through the real SDK HttpClient and the real axum router in-process (DESIGN 9.2)", "4.C05"),
  "C06": ("exploration", DST + "sequential-map refinement after every valid/invalid catalogue command",
-         "Every response of every catalogue command is predicted by a sequential map model; failed commands change nothing; deletes cascade; no handler panic; periodic full audits of every listing and entity by id and by name.", "binary protocol for every connection; HTTP arm as for C05 (root only)", "4.C06"),
+         "Every response of every catalogue command is predicted by a sequential map model; failed commands change nothing; deletes cascade; no handler panic; periodic full audits of every listing and entity by id and by name.", "binary protocol and HTTP arm as for C05; 10% of the runs inject errors on the state journal (open known finding @journal_fault, DESIGN 10)", "4.C06"),
  "C07": ("exploration", DST + "consumer-offset histories over consumer x group x partition identities vs. map model",
          "store/get/delete/poll-next/auto-commit/purge/group-deletion/restart with identities chosen so that a consumer and a group share a numeric id; crash durability of offset files is part of C04.", "named consumers resolved with the same hash the server uses", "4.C07"),
  "C08": ("exploration", DST + "join/leave/disconnect/heartbeat-expiry/partition add+remove with several connections; assignment invariants and group-wide exactly-once",
